@@ -2,7 +2,7 @@
    to the model's answer and, where the property has an executable spec, the spec's answer.
    Extracted to OCaml; the hand-written driver only parses and prints tokens. *)
 From Coq Require Import ZArith Bool List String.
-From HF Require Import MachInt Outcome GenConsts GenLeap GenUnits GenText Text Duration Epoch Gregorian TimeSeries F64 DurationF64 Views TextFmt TextParse GenUnicode SignedNs Civil LeapSpec.
+From HF Require Import MachInt Outcome GenConsts GenLeap GenUnits GenText Text Duration Epoch Gregorian TimeSeries F64 DurationF64 Views TextFmt TextParse GenUnicode SignedNs Civil LeapSpec TextSpec.
 Import ListNotations.
 Open Scope Z_scope.
 
@@ -453,9 +453,6 @@ Definition format_debug (f : format) : str :=
   [69;112;111;99;104;70;111;114;109;97;116;58;96] ++
   flat_map (fun it => nth_str (token it) TOKEN_NAMES ++ (match sep_char it with Some c => [c] | None => [] end) ++
                       (match second_sep_char it with Some c => [c] | None => [] end) ++ (if optional it then [63] else [])) f ++ [96].
-Definition predefined_by_index (k : Z) : format :=
-  predefined (match k with 0 => FMT_ISO8601 | 1 => FMT_ISO8601_FLEX | 2 => FMT_RFC3339 | 3 => FMT_RFC3339_FLEX | 4 => FMT_ISO8601_DATE
-              | 5 => FMT_ISO8601_ORDINAL | 6 => FMT_RFC2822 | 7 => FMT_RFC2822_LONG | _ => FMT_ISO8601_STD end).
 (* spec of the Gregorian fields of (scale, count): from the calendar spec *)
 Definition spec_fields (t v : Z) : option (Z * Z * Z * Z * Z * Z * Z) :=
   let w := v + spec_gregorian_zero t in
@@ -526,31 +523,6 @@ Definition spec_render (t v off : Z) (fmt : str) : list tok :=
       match spec_render_walk (mkCtx f wd doy t off) fmt [] 0 (S (List.length fmt)) with Some s => [TL s] | None => nospec end
   | _, _ => nospec
   end.
-Definition DOC_FORMAT (k : Z) : str :=
-  let ymd_hms := [37;89;45;37;109;45;37;100;84;37;72;58;37;77;58;37;83] in   (* %Y-%m-%dT%H:%M:%S *)
-  match k with
-  | 0 => ymd_hms ++ [46;37;102;32;37;84]            (* .%f %T *)
-  | 1 => ymd_hms ++ [46;37;102;63;32;37;84;63]      (* .%f? %T? *)
-  | 2 => ymd_hms ++ [46;37;102;37;122]              (* .%f%z *)
-  | 3 => ymd_hms ++ [46;37;102;63;37;122]           (* .%f?%z *)
-  | 4 => [37;89;45;37;109;45;37;100]                (* %Y-%m-%d *)
-  | 5 => [37;89;45;37;106]                          (* %Y-%j *)
-  | 6 => [37;97;44;32;37;100;32;37;98;32;37;89;32;37;72;58;37;77;58;37;83]    (* %a, %d %b %Y %H:%M:%S *)
-  | 7 => [37;65;44;32;37;100;32;37;66;32;37;89;32;37;72;58;37;77;58;37;83]    (* %A, %d %B %Y %H:%M:%S *)
-  | _ => ymd_hms ++ [46;37;102;32]                  (* ISO8601_STD documents no string of its own: "the ISO8601 format without the
-                                                       time scale", i.e. ISO8601 with its last token removed: .%f followed by the space *)
-  end.
-(* spec of Duration's Display *)
-Definition spec_display_duration (v : Z) : str :=
-  if v =? 0 then [48; 32; 110; 115] else
-  let a := Z.abs v in
-  let comps := [(a / 86400000000000, if 1 <? a / 86400000000000 then [100;97;121;115] else [100;97;121]);
-                (a / 3600000000000 mod 24, [104]); (a / 60000000000 mod 60, [109;105;110]); (a / 1000000000 mod 60, [115]);
-                (a / 1000000 mod 1000, [109;115]); (a / 1000 mod 1000, [956;115]); (a mod 1000, [110;115])] in
-  let parts := map (fun p => fmt_int 0 (fst p) ++ [32] ++ snd p) (filter (fun p => 0 <? fst p) comps) in
-  (if v <? 0 then [45] else []) ++
-  match parts with [] => [] | p :: r => p ++ flat_map (fun q => 32 :: q) r end.
-
 Definition dispatch_text (name : string) (a : list tok) : option (list tok * list tok) :=
   match name, a with
   | "disp_dur"%string, [TZ c; TZ n] => Some (tstr (display_duration (from_parts c n)), tstr (spec_display_duration (pval c n)))
